@@ -307,6 +307,12 @@ func (env *specEnv) index(x, i Val) Val {
 			h := sc.sliceHeap(types.Typ[types.Uint8])
 			return Val{T: "(select (select " + env.heapRead(h, x) + " " + sRef(x.T) + ") " + plus(sOff(x.T), i.T) + ")", Sort: "Int"}
 		}
+		if srt := x.sortIn(sc); strings.HasPrefix(srt, "(Array ") {
+			parts := splitTop(srt[7 : len(srt)-1])
+			if len(parts) == 2 {
+				return Val{T: "(select " + x.T + " " + i.T + ")", Sort: parts[1]}
+			}
+		}
 		return env.fail("index on ghost value of sort " + x.sortIn(sc))
 	}
 	switch u := x.Ty.Underlying().(type) {
@@ -494,6 +500,47 @@ func (env *specEnv) call(e *ast.CallExpr) Val {
 			r = sRef(x.T)
 		}
 		return Val{T: "(>= " + r + " " + env.old.alloc + ")", Sort: "Bool"}
+	case "unbox":
+		// unbox(ifaceValue, "pkg.Type"): the value of that dynamic type stored in the interface
+		if lit, ok := e.Args[1].(*ast.BasicLit); ok {
+			name, _ := strconv.Unquote(lit.Value)
+			if i := strings.LastIndex(name, "."); i > 0 {
+				for _, tp := range fv.eng.allTypes {
+					if tp.Name() == name[:i] {
+						if o := tp.Scope().Lookup(name[i+1:]); o != nil {
+							fn := "dyn.val_" + typeKey(o.Type())
+							fv.eng.dynVals[fn] = sc.sortOf(o.Type())
+							fv.eng.needDyn = true
+							return Val{T: "(" + fn + " " + arg(0).T + ")", Ty: o.Type()}
+						}
+					}
+				}
+			}
+		}
+		return env.fail("unbox: unknown type")
+	case "typetag":
+		// typetag("pkg.Type"): the dynamic-type tag of a named Go type
+		if lit, ok := e.Args[0].(*ast.BasicLit); ok {
+			name, _ := strconv.Unquote(lit.Value)
+			if i := strings.LastIndex(name, "."); i > 0 {
+				for _, tp := range fv.eng.allTypes {
+					if tp.Name() == name[:i] {
+						if o := tp.Scope().Lookup(name[i+1:]); o != nil {
+							return Val{T: fv.dynTag(o.Type()), Sort: "Int"}
+						}
+					}
+				}
+			}
+		}
+		return env.fail("typetag: unknown type")
+	case "inst":
+		fv.eng.needTime()
+		return Val{T: "(time.inst " + arg(0).T + ")", Sort: "Int"}
+	case "clock":
+		if v, ok := env.st.ghost["$clock"]; ok {
+			return v
+		}
+		return Val{T: "0", Sort: "Int"}
 	case "upd":
 		if !need(3) {
 			return Val{T: "false"}
@@ -537,7 +584,7 @@ func (env *specEnv) call(e *ast.CallExpr) Val {
 		return arg(0)
 	}
 	// uninterpreted ghost function declared with "ufun"
-	if uf, ok := fv.eng.ufuns[name]; ok {
+	if uf, ok := fv.eng.ufuns[strings.TrimPrefix(name, "uf.")]; ok {
 		var as []string
 		for i := range e.Args {
 			as = append(as, arg(i).T)
